@@ -12,15 +12,16 @@ from mc.ref import expr as rx
 
 ID = "C03"
 LEVEL = "model_checking"
-LEVEL_TEXT = ("Explicit enumeration of every sequence of layout events up to depth 4 over a 18-event alphabet (emit 1/3 bytes, "
-              "self-address data, `*=` to window start / file offset 0 / the current run address / last byte of a bank / mirror / other bank / RAM, `@=` to ROM same bank / "
-              "other bank / RAM, open/close block, macro application, 2-iteration loop, conditional) plus depth 5 over the 14 core "
+LEVEL_TEXT = ("Explicit enumeration of every sequence of layout events up to depth 4 over a 19-event alphabet (emit 1/3 bytes, "
+              "self-address data, `*=` to window start / file offset 0 / the current run address / last byte of a bank / mirror / other bank / RAM / mirror of RAM (.map), `@=` to ROM same bank / "
+              "other bank / RAM, open/close block, macro application, 2-iteration loop, conditional) plus depth 5 over the 13 core "
               "events (thorough: depth 5 full, depth 6 core), under LoROM, HiROM and two `.map` configurations; every sequence is "
               "rendered to source, assembled by the real assembler and its writer calls compared block by block with the reference "
               "assembler's prediction (offsets, contiguity, order, run addresses via self-address data and labels). "
               "Tests check the address of the first block of five tiny programs.")
-LEVEL_NOTE = ("Trusted: mc/ref/asm.py + mc/ref/bus.py. After `*=` to a RAM address the storage offset is unspecified (block offset not "
-              "compared, bytes/order/run addresses still are). Programs whose advance leaves the mapped range are unspecified.")
+LEVEL_NOTE = ("Trusted: mc/ref/asm.py + mc/ref/bus.py. `*=` to a RAM address leaves the output where it is (a new block starts at the "
+              "current storage offset); only after an `@=` to a ROM address is that offset unspecified (not compared; bytes, order and "
+              "run addresses still are). Programs whose advance leaves the mapped range are unspecified.")
 TECHNIQUE = "explicit-state enumeration of layout event sequences; reference assembler predicts every block, compared with writer calls"
 RULE = ("state = event sequence (program prefix with open-block stack); transition = appending one event. All sequences up to the depth "
         "bound are executed. non-trivial = accepted program with >=1 position move and >=2 emitting events; sequences are distinct "
@@ -34,23 +35,24 @@ ADDR = {
     "low_rom": dict(zero=0x008000, start=0x018000, last=0x01FFFF, mirror=0x818010, other=0x02C000, ram=0x7E0100, r_same=0x01A000, r_other=0x038000, r_ram=0x7E2000),
     "high_rom": dict(zero=0x400000, start=0x410000, last=0x41FFFF, mirror=0xC10010, other=0x42C000, ram=0x7E0100, r_same=0x41A000, r_other=0x438000, r_ram=0x7E2000),
     # .map configuration A: LoROM-like, banks 00-3F mirrored at 80-BF, RAM 7E-7F
-    "mapA": dict(zero=0x008000, start=0x018000, last=0x01FFFF, mirror=0x818010, other=0x02C000, ram=0x7E0100, r_same=0x01A000, r_other=0x038000, r_ram=0x7E2000),
+    "mapA": dict(ram_m=0xEE0100, zero=0x008000, start=0x018000, last=0x01FFFF, mirror=0x818010, other=0x02C000, ram=0x7E0100, r_same=0x01A000, r_other=0x038000, r_ram=0x7E2000),
     # .map configuration B: 64K windows, banks 40-6F, no mirror (mirror event targets a second ROM range F0-F3 with 32K windows), RAM 7E-7F
     "mapB": dict(zero=0x400000, start=0x410000, last=0x41FFFF, mirror=0xF18010, other=0x42C000, ram=0x7E0100, r_same=0x41A000, r_other=0x438000, r_ram=0x7E2000),
 }
 MAPS = {
-    "mapA": [("1", (0x00, 0x3F), 0x8000, False, (0x80, 0xBF)), ("2", (0x7E, 0x7F), 0x10000, True, None)],
+    "mapA": [("1", (0x00, 0x3F), 0x8000, False, (0x80, 0xBF)), ("2", (0x7E, 0x7F), 0x10000, True, (0xEE, 0xEF))],
     "mapB": [("1", (0x40, 0x6F), 0x10000, False, None), ("3", (0xF0, 0xF3), 0x8000, False, None), ("2", (0x7E, 0x7F), 0x10000, True, None)],
 }
-EVENTS = ["E1", "E3", "ES", "OW", "OZ", "OH", "OL", "OM", "OB", "OR", "RS", "RO", "RR", "BO", "BC", "MA", "FO", "IF"]
-CORE = [e for e in EVENTS if e not in ("MA", "FO", "IF", "E3")]
+EVENTS = ["E1", "E3", "ES", "OW", "OZ", "OH", "OL", "OM", "OB", "OR", "ORM", "RS", "RO", "RR", "BO", "BC", "MA", "FO", "IF"]
+CORE = [e for e in EVENTS if e not in ("MA", "FO", "IF", "E3", "OZ", "ORM")]
+CORE_CFG = [e for e in EVENTS if e not in ("MA", "FO", "IF", "E3")]  # HiROM / .map runs keep the offset-0 and RAM-mirror moves
 MACRO = ("macro", "mm", ["pp"], [("label", "ml"), ("data", "db", [S("pp")]), ("data", "db", [("b", "&", S("ml"), N(0xFF))])])
 
 
 def bound(tier):
     if tier == "thorough":
-        return "all event sequences of depth <=5 over 18 events and depth 6 over 14 core events (LoROM); depth <=4 under HiROM and 2 .map configurations"
-    return "all event sequences of depth <=4 over 18 events and depth 5 over 14 core events (LoROM); depth <=4 (14 core events) under HiROM and 2 .map configurations"
+        return "all event sequences of depth <=5 over 19 events and depth 6 over 13 core events (LoROM); depth <=4 under HiROM and 2 .map configurations"
+    return "all event sequences of depth <=4 over 19 events and depth 5 over 13 core events (LoROM); depth <=4 (13 core events) under HiROM and 2 .map configurations"
 
 
 def cases(tier, seed):
@@ -68,10 +70,10 @@ def cases(tier, seed):
     for cfg in ("high_rom", "mapA", "mapB"):
         for d in range(1, 5):
             if d <= 2:
-                yield ("seq", cfg, "core", d, ())
+                yield ("seq", cfg, "cfg", d, ())
             else:
-                for pre in itertools.product(range(len(CORE)), repeat=2):
-                    yield ("seq", cfg, "core", d, pre)
+                for pre in itertools.product(range(len(CORE_CFG)), repeat=2):
+                    yield ("seq", cfg, "cfg", d, pre)
 
 
 def describe(case, res):
@@ -116,6 +118,9 @@ def build(cfg, events):
             cur.append(("org", N(a["other"])))
         elif ev == "OR":
             cur.append(("org", N(a["ram"])))
+        elif ev == "ORM":
+            # mirror bank of a RAM range (exists only in .map configuration A; elsewhere it aliases the plain RAM move)
+            cur.append(("org", N(a.get("ram_m", a["ram"] + 0x40))))
         elif ev == "RS":
             cur.append(("reloc", N(a["r_same"])))
         elif ev == "RO":
@@ -150,7 +155,7 @@ def refbus_for(cfg):
 
 def run_case(case):
     _, cfg, alpha, depth, pre = case
-    alphabet = EVENTS if alpha == "full" else CORE
+    alphabet = {"full": EVENTS, "core": CORE, "cfg": CORE_CFG}[alpha]
     viol = []
     outcomes = set()
     n = nt = states = 0
